@@ -1,5 +1,6 @@
 """C13 -- process memory figures are consistent with the kernel's per-mapping accounting."""
 import errno
+import json
 import os
 from fractions import Fraction
 
@@ -54,6 +55,10 @@ EDGE_PATHS = [b"/tmp/trail ", b"/tmp/trail\t", b"/tmp/nbsp\xc2\xa0", b"/tmp/fs\x
               b"/tmp/idsp\xe3\x80\x80", b"/tmp/two  ", b"/tmp/ogham\xe1\x9a\x80", b"/tmp/mmsp\xe2\x81\x9f", b"/tmp/ls\xe2\x80\xa8"]
 FLAGS = ["rd", "wr", "ex", "sh", "mr", "mw", "me", "ms", "gd", "pf", "dw", "lo", "io", "sr", "rr", "dc", "de", "ac", "nr", "ht", "sf", "nl", "ar", "wf", "dd", "sd", "mm", "hg", "nh", "mg", "um", "uw"]
 DELETED = b" (deleted)"
+# names that are not fields: plain unknown ones, and attributes / methods / dunders of the namedtuple
+BAD_NAMES = ["", "RSS", "rss ", "private", "size", "pss_dirty", "swap\x00", "vms\n", "uss_", "total", "percent", "café",
+             "count", "index", "_fields", "_asdict", "_make", "_replace", "_field_defaults", "__class__", "__len__", "__doc__",
+             "__getitem__", "__dict__", "__slots__", "__add__", "rss.real", "0", "-1"]
 
 
 def _page():
@@ -131,8 +136,15 @@ def _mappings(rng, n, edge=False):
     jitter = rng.random() < 0.3
     addr = rng.choice([0x400000, 0x55faa4233000, 0x7f0000000000])
     ms = []
+    twins = rng.random() < 0.35       # later mappings repeat an earlier one's path AND figure lines
     for _ in range(n):
         m, addr = _mapping(rng, profile, pool, jitter, addr)
+        if twins and ms and rng.random() < 0.6:
+            src = rng.choice(ms)
+            m["path"], m["deleted"] = src["path"], src["deleted"]
+            m["lines"] = [list(l) for l in src["lines"]]
+            if rng.random() < 0.3:      # same size of region, other perms
+                m["perms"] = src["perms"]
         ms.append(m)
     return ms
 
@@ -283,7 +295,7 @@ def gen_cases(rng, tier):
         ms = _mappings(rng, _nmaps(rng), edge=edge)
         c = {"kind": "maps", "ms": ms, "ex": _ex_for(rng, ms, amb)}
         paths = [m["path"] for m in ms]
-        c["cls"] = "trivial" if not ms else ("maps-edge-blank" if _edge_class(c) else "maps-ambiguous-deleted" if amb else
+        c["cls"] = "trivial" if not ms else ("maps-identical-rows" if _twin_class(ms) else "maps-edge-blank" if _edge_class(c) else "maps-ambiguous-deleted" if amb else
                                              "maps-repeated-paths" if len(set(paths)) < len(paths) else "maps")
         cases.append(c)
     # ---- malformed smaps / errors (model only)
@@ -309,7 +321,7 @@ def gen_cases(rng, tier):
     for _ in range(max(2, n // 12)):
         base = _full_case(rng, "percent")
         base["rmode"] = rng.choice(["ok", "ok", "enoent"])
-        names = PFULL + ["", "RSS", "rss ", "private", "size", "pss_dirty", "swap\x00", "vms\n", "uss_", "total", "percent", "café"]
+        names = PFULL + BAD_NAMES
         for nm in names:
             c = dict(base)
             c["memtype"] = nm
@@ -320,7 +332,27 @@ def gen_cases(rng, tier):
         c = dict(base)
         c.update(memtype="rss", total=rng.choice([0, -5]), cached=False, cls="percent-nonpositive-total")
         cases.append(c)
+    # the name is validated first: unknown name x unreadable files / vanished process / zombie
+    ok_statm, ok_smaps = b"10 20 30 40 0 50 0\n".hex(), _text_smaps(_mappings(rng, 1)).hex()
+    states = [(0, "eacces", "eacces", "eacces"), (0, "ok", "eacces", "ok"), (2, "enoent", "enoent", "enoent"), (0, "enoent", "enoent", "ok"),
+              (1, "esrch_open", "esrch_read", "esrch_open"), (2, "ok", "ok", "ok"), (0, "ok", "ok", "eacces"), (0, "esrch_read", "esrch_open", "ok")]
+    for ps, rmode, smode, tmode in states:
+        for nm in rng.sample(BAD_NAMES, 4 if tier != "thorough" else 12) + rng.sample(PFULL, 2):
+            cases.append({"kind": "percent_raw", "cls": "percent-err-" + ("unknown" if nm not in PFULL else "field"), "ps": ps,
+                          "pagesize": _page(), "has_rollup": rng.random() < 0.7, "rmode": rmode, "rollup": b"x\nPss: 5 kB\n".hex(),
+                          "smode": smode, "smaps": ok_smaps, "tmode": tmode, "statm": ok_statm, "memtype": nm,
+                          "total": 8 * 2 ** 30, "cached": rng.random() < 0.5})
     return cases
+
+
+def _twin_class(ms):
+    seen = set()
+    for m in ms:
+        k = (m["path"], m["deleted"], json.dumps([l for l in m["lines"] if l[0] == "F"]))
+        if k in seen:
+            return True
+        seen.add(k)
+    return False
 
 
 def _py_edge_blank(p):
@@ -381,6 +413,11 @@ def coq_term(case):
         return "run_maps %s %s" % (_g_ex(case["ex"]), G.lst([_g_mapping(m) for m in case["ms"]]))
     if k == "maps_raw":
         return "run_maps_raw %s %s %s %s" % (G.z(case["ps"]), _g_ex(case["ex"]), G.z(RMODE_NUM[case["mode"]]), _hx(case["content"]))
+    if k == "percent_raw":
+        return "run_percent_raw %s %s %s %s %s %s %s %s %s %s %s" % (
+            G.z(case["ps"]), G.z(case["pagesize"]), G.bo(case["has_rollup"]), G.z(RMODE_NUM[case["rmode"]]), _hx(case["rollup"]),
+            G.z(RMODE_NUM[case["smode"]]), _hx(case["smaps"]), G.z(RMODE_NUM[case["tmode"]]), _hx(case["statm"]),
+            G.by(case["memtype"]), G.z(case["total"]))
     if k == "percent":
         return "run_percent %s %s %s %s %s %s %s %s %s" % (
             G.z(case["pagesize"]), G.bo(case["has_rollup"]), G.z(RMODE_NUM[case["rmode"]]), _g_ex(case["ex"]),
@@ -423,6 +460,8 @@ def coq_struct(case, raw):
         return {"printed": raw[0], "model": [raw[1], raw[2]], "spec": None if raw[3] is None else [raw[3], raw[4]]}
     if k == "maps_raw":
         return {"model": [raw[0], raw[1]], "spec": None}
+    if k == "percent_raw":
+        return {"model": raw[0], "spec": raw[1]}
     raise ValueError(k)
 
 
@@ -466,7 +505,7 @@ def judge(case, coq, impl):
         if impl != model:
             return Verdict("corr", "impl != model")
         return Verdict("ok")
-    if k == "percent":
+    if k in ("percent", "percent_raw"):
         spec, model = coq["spec"], coq["model"]
         if spec is not None and not _ratio_close(impl, spec):
             return Verdict("violation", "memory_percent differs from 100*field/total (or accepts/rejects the wrong names)")
@@ -580,7 +619,7 @@ def impl_run(case, coq, env):
         files["smaps"] = ("ok", unB(coq["printed"][0]))
         files["smaps_rollup"] = (case["rmode"], unB(coq["printed"][1]))
         files["statm"] = ("ok", unB(coq["printed"][2]))
-    elif k == "full_raw":
+    elif k in ("full_raw", "percent_raw"):
         files["smaps"] = (case["smode"], bytes.fromhex(case["smaps"]))
         files["smaps_rollup"] = (case["rmode"], bytes.fromhex(case["rollup"]))
         files["statm"] = (case["tmode"], bytes.fromhex(case["statm"]))
@@ -633,7 +672,7 @@ def impl_run(case, coq, env):
         if k in ("maps", "maps_raw"):
             return [outcome(lambda: p.memory_maps(grouped=False), _rows_conv),
                     outcome(lambda: p.memory_maps(grouped=True), _grouped_conv)]
-        if k == "percent":
+        if k in ("percent", "percent_raw"):
             total = case["total"]
             class _VM:
                 pass
